@@ -1,11 +1,16 @@
 (* Props/C04.v -- pipelined requests: in order, exactly once, never mixed, under every schedule.
-   Model: Model/ChanPipe.v (header comment: which statement of channel.py / task.py is which step). *)
+   Model: Model/ChanPipe.v (its header says which statement of channel.py / task.py is which step).
+   All statements quantify over every parameter record P (lookahead, send_bytes, number of workers,
+   the client's pipeline with write sizes / Expect / close flags) and every schedule, i.e. every
+   interleaving of the I/O thread with the workers and every behaviour of the environment (how the
+   stream is cut into reads, what select reports, how many bytes each send accepts, EOF). *)
 From Coq Require Import List Arith Bool ZArith.
-From WV Require Import Model.ChanPipe Proof.ChanPipeBase Proof.ChanPipeOwn Proof.ChanPipeSpec.
+From WV Require Import Model.ChanPipe Proof.ChanPipeBase Proof.ChanPipeOwn Proof.ChanPipeLog
+                       Proof.ChanPipeOut Proof.ChanPipeOutStep Proof.ChanPipeQuiet Proof.ChanPipeSpec Proof.ChanPipeRefute.
 Import ListNotations.
 
-(* At most one worker owns the connection (is between taking the channel off the dispatcher queue and
-   handing it over), for every schedule, every parameter setting, every number of workers. *)
+(* At most one worker owns the connection (is between taking the channel off the dispatcher queue
+   and handing it over: add_task for the next request / the pop that empties the list / requests := []). *)
 Theorem C04_one_at_a_time : forall (P : params) (sched : list choice) (j k : nat),
   wk_owner (wpc (wk (run P sched) j)) = true -> wk_owner (wpc (wk (run P sched) k)) = true -> j = k.
 Proof. exact one_at_a_time. Qed.
@@ -22,3 +27,48 @@ Theorem C04_one_entry : forall (P : params) (sched : list choice),
    queue (sh st) = 1).
 Proof. exact one_entry. Qed.
 Print Assumptions C04_one_entry.
+
+(* The requests whose service() started are a prefix of the arrivals, in arrival order (each arrival
+   is started at most once); the application calls are the starts, except possibly the last one
+   (started but not yet / never executed because the client had gone). *)
+Theorem C04_once : forall (P : params) (sched : list choice),
+  let s := sh (run P sched) in
+  prefix (starts s) (arrivals s) /\ (starts s = execs s \/ exists x, starts s = execs s ++ [x]).
+Proof. exact once. Qed.
+Print Assumptions C04_once.
+
+(* Exactly once: when no worker can move any more (every pool worker is parked in queue_cv.wait() and
+   has not been notified) and the I/O thread is not in the middle of add_task, then on an open
+   connection that is not closing the request list is empty and every request that arrived has been
+   executed (no task is lost; needs at least one worker). *)
+Theorem C04_exactly_once_quiescent : forall (P : params) (sched : list choice),
+  let st := run P sched in
+  1 <= p_nw P -> all_parked (p_nw P) st = true -> io_in_add_task (io st) = false ->
+  connected (sh st) = true -> closing (sh st) = false ->
+  requests (sh st) = [] /\ execs (sh st) = arrivals (sh st).
+Proof. exact quiescent_exactly_once. Qed.
+Print Assumptions C04_exactly_once_quiescent.
+
+(* The bytes: for every execution without a worker-side send_continue (class of finding F18),
+   wire ++ pending ++ discarded-at-close = produced (nothing duplicated, lost or reordered between
+   the buffers and the wire), produced = the units in order, and the response units are exactly the
+   executed requests in order (each response contiguous, interim responses only between them). *)
+Theorem C04_wire_partial : forall (P : params) (sched : list choice),
+  wsc (sh (run P sched)) = false -> wire_statement P (run P sched).
+Proof. exact wire_partial. Qed.
+Print Assumptions C04_wire_partial.
+
+(* ... and every response but the one being written is complete while the connection is open. *)
+Theorem C04_complete_partial : forall (P : params) (sched : list choice),
+  let st := run P sched in
+  wsc (sh st) = false -> connected (sh st) = true ->
+  (forall j, in_task (wpc (wk st j)) = false) -> Forall (complete P) (units (sh st)).
+Proof. exact complete_partial. Qed.
+Print Assumptions C04_complete_partial.
+
+(* The full statement (without the class restriction) is FALSE of the model, as it is of the code
+   (finding F18): the worker's send_continue() and the I/O thread's unlocked _flush_some send the
+   same chunk twice. *)
+Theorem C04_wire_refuted : exists (P : params) (sched : list choice), ~ wire_statement P (run P sched).
+Proof. exact wire_refuted. Qed.
+Print Assumptions C04_wire_refuted.
